@@ -130,6 +130,7 @@ fn main() {
             "parse" => suites::parse::replay(&body),
             "grp" => suites::group::replay(&body),
             "egs" => suites::group::replay_egs(&body),
+            "egr" => suites::group::replay_egr(&body),
             "eg" => suites::eg::replay(&body),
             "expl" => suites::expl::replay(&body),
             "mat" => suites::mat::replay(&body),
